@@ -140,6 +140,13 @@ def sortedByKeyM {α : Type} (f : α → M Nat) (r : Bool) (xs : List α) : M (L
   let keys ← xs.mapM f
   pure (((keys.zip xs).foldr (insertByKey r) []).map (·.2))
 
+/-- `a == b` on `Optional` values whose `==` on non-`None` values is `eq` (named by the spec of the translation): `None == None`
+    is `True`, a value and `None` are never equal (the values of the subset do not define an `__eq__` that accepts `None`) -/
+def optEq {α : Type} (eq : α → α → Bool) : Option α → Option α → Bool
+  | some a, some b => eq a b
+  | none, none => true
+  | _, _ => false
+
 /-- `d[k]` on a record that stands for a Python dict, where the spec of the translation gives the lookup as an `Option`
     (`none` = the key is absent): `KeyError` -/
 def unwrapKey {α : Type} : Option α → M α
